@@ -8,12 +8,7 @@ EXPLANATION = ("All paths of the TCP connection constructor are enumerated (path
                "Ok paths without TLS are those for `ldap` without StartTLS; W2 on StartTLS paths exactly one LDAP operation is issued "
                "before the handshake - extended(StartTLS) - the driver turn's result and `success()?` of the response are both required "
                "(Ok) before into_parts / the handshake, `ldaps` paths issue no LDAP operation before the handshake, and the handle is not "
-               "cloned; W3 the transport the connection ends up with is read as what it is built from, whichever constructor spells it (Framed::new, Decoder::framed, FramedParts::new + Framed::from_parts, each modelled after tokio_util): it runs over the stream the handshake returned, the handshake ran on the socket taken out of the cleartext transport, the codec is the cleartext transport's, and its read and write buffers start empty - a buffer of the cleartext transport carried over (assigned into the new parts, or the old parts reused) would have cleartext bytes decoded inside the protected session; of the old transport's parts only io and codec flow anywhere; a transport is rebuilt from parts nowhere else; W4 the request to skip certificate verification is the public call set_no_tls_verify(true): the private field it writes and "
-               "the value that stands for the request are read from the setter (not from a name); every body that builds a settings value "
-               "(new, the Default impl - derived or hand-written -, Clone) leaves that field at 'not requested'; the default connector / "
-               "configuration disables verification exactly on the paths that found the request in the field, is built from the "
-               "connection's own settings, a caller-supplied connector is used as given, and the handshake is given the URL's host name; "
-               "W5/W7/W8 the settings' Clone keeps, and the starttls() getter returns, what the setters recorded (fields anchored by role). Not decided: what native-tls / rustls verify (trusted); server behaviours as runtime events.")
+               "cloned; W3 the transport the connection ends up with is read as what it is built from, whichever constructor spells it (Framed::new, Decoder::framed, FramedParts::new + Framed::from_parts, each modelled after tokio_util): it runs over the stream the handshake returned, the handshake ran on the socket taken out of the cleartext transport, the codec is the cleartext transport's, and its read and write buffers start empty - a buffer of the cleartext transport carried over (assigned into the new parts, or the old parts reused) would have cleartext bytes decoded inside the protected session; of the old transport's parts only io and codec flow anywhere; a transport is rebuilt from parts nowhere else; W4 the request to skip certificate verification is the public call set_no_tls_verify(true). How the settings struct keeps its requests is not read: the reachable states of the struct are enumerated by evaluating the constructors and every builder method on literals (exhaustively; bit operations exact), and each setting is read where it takes effect - StartTLS through the public getter, the verification setting in the default connector / configuration of the handshake helper. In every reachable state: set_no_tls_verify(v) makes the setting read v; every body that builds a settings value (new, the Default impl - derived or hand-written -, Clone) yields 'not requested'; the default connector / configuration disables verification exactly when the last set_no_tls_verify on the way there said true, is built from the connection's own settings, a caller-supplied connector is used as given, and the handshake is given the URL's host name; W5/W7/W8 the settings' Clone keeps, and the starttls() getter returns, what the setters recorded, in every reachable state (a setting that is a bool field of its own and one that is a bit of a flags byte are the same to these rules). Not decided: what native-tls / rustls verify (trusted); server behaviours as runtime events.")
 TRUSTED = ['native-tls / rustls certificate and host name verification', 'tokio_util Framed::into_parts / Framed::new / Framed::from_parts / FramedParts::new / Decoder::framed behave as modelled in transport_of (read from tokio-util 0.7 source)']
 UNDECIDED = ['TLS library behaviour', 'server behaviour at run time']
 ASSUMPTIONS = []
@@ -125,7 +120,9 @@ def run(ctx):
     B = hirq.Body(f, f.body(NT))
     ctx.analysed['bodies'].add(NT)
     R = anchors.ConnSettings(f)
-    outs = absx.Interp(f, B, unroll=1, combinators=True).run(root=B.root['body'] if B.root['k'] == 'Closure' else B.root)
+    # (R.algebra: what `settings.starttls()` answers after `settings = settings.set_starttls(false)` - or after any other builder call -
+    # is decided by the meaning of the builder interface, established by W7 / W9, not by where in the function the test sits)
+    outs = absx.Interp(f, B, unroll=1, combinators=True, summaries=[R.algebra]).run(root=B.root['body'] if B.root['k'] == 'Closure' else B.root)
     oks = [o for o in outs if o.kind in ('val', 'ret') and o.val[0] == 'ctor' and o.val[1] == 'Ok']
     ctx.floor('W1', 'Ok-returning paths of the TCP constructor', len(oks), 3)
     urls = sem.params_of_type(f, B, lambda t: t == 'url::Url')
@@ -234,209 +231,213 @@ def run(ctx):
     check_other_constructors(ctx, f, R)
 
 
-DANGER = {'ldap3::conn::LdapConnAsync::create_connector': 'danger_accept_invalid_certs', 'ldap3::conn::LdapConnAsync::create_config': 'set_certificate_verifier'}
-TS = 'ldap3::conn::LdapConnAsync::create_tls_stream'
+DANGER = anchors.ConnSettings.DANGER
+TS = anchors.ConnSettings.TS
 IS_SETTINGS = lambda t: t == anchors.ConnSettings.ST
 
-def check_verification(ctx, f, R):
-    """W4, certificate verification.  The request "do not verify" is the public call `set_no_tls_verify(true)`; the private field
-    it writes and the value that stands for the request are read from the setter (anchors.ConnSettings), not from a name.
-      (a) the setter records the request: it stores the two distinct boolean constants for true / false;
-      (b) every way to obtain a settings value without calling the setter - every body that builds the struct (`new`, the `Default`
-          impl whether derived or written by hand, ...) - yields "not requested" in that field (or copies another settings' field);
-      (c) the default connector / configuration switches verification off exactly on the paths that found the request in the field;
-      (d) it is built from the connection's own settings, and a caller-supplied connector is used as given."""
-    F = R.field.get('verify-off')
-    ctx.add('W4.verification-request-recorded', R.setter.get('verify-off', 'set_no_tls_verify'), '', F is not None and R.polarity_ok('verify-off'),
-            'set_no_tls_verify(v) does not record v in a field of the settings (it stores %s for true, %s for false): the request cannot be told from its absence' % (
-                tuple(absx.fmt(R.stored.get('verify-off', {}).get(v, ('unk',))) for v in (True, False))))
-    if F is None or not R.polarity_ok('verify-off'):
-        return
-    on_value = R.stored['verify-off'][False]          # what the field holds when verification is to be performed
-    # ---- (b) initial value on every constructor path
-    n = 0
-    for p in sorted(f.hir):
-        rec = f.hir[p]
-        if '{' in p or not any(nd['k'] == 'Struct' and (nd.get('ctor_of') or nd.get('def') or '') == R.ST for nd, _c in walk(rec['body'])):
+def states_of(R):
+    """the distinct reachable scalar states of the settings struct, each with a node that reaches it (for the report)"""
+    out = {}
+    for n in R.nodes:
+        out.setdefault(R.key(n['state']), n)
+    return list(out.values())
+
+def reading_text(role, v):
+    if role == 'verify-off':
+        return 'certificate verification is %s' % {True: 'switched off', False: 'performed', None: 'not decided'}[v]
+    return 'starttls() answers %s' % {True: 'true', False: 'false', None: 'something the analysis cannot reduce to a constant'}[v]
+
+def check_request_recorded(ctx, R, role, rule, instance):
+    """set_x(v) makes x read v: in every reachable state of the settings, with v = true and v = false, the state the setter leaves
+    is one in which the setting - read through its reader, see anchors.ConnSettings - is v.  (One bool field, one bit of a flags
+    byte that is set with `|=` and cleared with `&= !BIT`, a variant of an enum: all the same to this rule.)"""
+    p = R.setter[role]
+    nm = p.rsplit('::', 1)[-1]
+    bad, n = [], 0
+    for t in R.trans:
+        if t['setter'] != p:
             continue
-        if p == R.setter.get('verify-off'):
-            continue        # the setter itself, written as a struct-update (`Self { f: v, ..self }`): what it records is (a)'s question
+        n += 1
+        got, why = R.read(role, t['state'])
+        if got is None:
+            continue        # a reader the analysis cannot decide in this state is reported - once - by the rule that judges the reader in every reachable state (W4.verification-disabled-only-on-request / W7.getter-returns-the-setting)
+        if got is not t['arg']:
+            before = R.read(role, R.nodes[t['node']]['state'])[0]
+            bad.append('%s after %s: %s%s%s' % (t['call'], R.where(t['node']), reading_text(role, got), ' (%s)' % why if got is None else '',
+                                                ' - as before the call' if got is not None and got == before else ''))
+    ctx.add(rule, instance, '', not bad and n > 0,
+            '%s(v) does not record v: %s - the request cannot be told from its absence (%d of %d calls over the reachable settings states)' % (nm, '; '.join(bad[:3]), len(bad), n))
+    return not bad and n > 0
+
+def check_verification(ctx, f, R):
+    """W4, certificate verification.  The request "do not verify" is the public call `set_no_tls_verify(true)`.  How the settings
+    struct keeps it is not read (anchors.ConnSettings): the reachable states of the struct are enumerated by evaluating the builder
+    methods on literals, and the setting is read where it takes effect - in the default connector / configuration of the handshake
+    helper.
+      (a) the setter records the request: after set_no_tls_verify(v), from any reachable state, the setting reads v;
+      (b) every way to obtain a settings value without calling the setter - every body that builds the struct (`new`, the `Default`
+          impl whether derived or written by hand, Clone, ...) - yields "not requested" (or what the settings it copies from say);
+      (c) in every reachable state the default connector / configuration switches verification off exactly when the last
+          set_no_tls_verify call on the way there said true (never called: false);
+      (d) it is built from the connection's own settings, and a caller-supplied connector is used as given."""
+    role = 'verify-off'
+    if role not in R.setter:
+        ctx.fail('W4.verification-request-recorded', 'set_no_tls_verify', '', 'the settings struct has no public set_no_tls_verify(bool): anchor lost')
+        return
+    builders = [fn for fn in DANGER if fn in f.hir]
+    ctx.add('W4.default-connector-builder', TS, '', len(builders) == 1 and TS in f.hir, 'the handshake helper / the builder of the default connector were not found (%s): anchor lost' % builders)
+    if len(builders) != 1 or TS not in f.hir:
+        return
+    bname = builders[0].split('::')[-1]
+    ctx.analysed['bodies'].update([TS, builders[0], R.setter[role]])
+    # ---- (a)
+    check_request_recorded(ctx, R, role, 'W4.verification-request-recorded', R.setter[role])
+    # ---- (b) the value every constructor path starts from
+    n = 0
+    for p in R.constructors():
         B = hirq.Body(f, f.body(p))
         ctx.analysed['bodies'].add(p)
-        sparams = [('param', x) for x in sem.params_of_type(f, B, IS_SETTINGS)]
-        def copied(x):
-            while x and x[0] == 'call' and x[1].rsplit('::', 1)[-1] in ('clone', 'to_owned') and x[2]:
-                x = x[2][0]
-            return x[0] == 'field' and x[2] == F and x[1] in sparams
-        outs = absx.Interp(f, B, combinators=True, summaries=[sem.primitive_defaults], inline=lambda c: c.endswith('core::default::Default>::default')).run(
-            root=B.root['body'] if B.root['k'] == 'Closure' else B.root)
+        sparams, _vals = R.built(p)
+        short = p.replace(R.ST, 'LdapConnSettings')
         built = 0
-        for o in outs:
-            if o.kind == 'div':
-                continue
-            where = [o.val] + [x for e in o.st.ev if e[0] in ('call', 'store') for x in (e[2] if e[0] == 'call' else (e[2],))] + list(o.st.heap.values())
-            structs = []
-            for t in where:
-                for x in absx.leaves(t, lambda x: x[0] == 'struct' and x[1] == hirq.short_def(R.ST)):
-                    if x not in structs:
-                        structs.append(x)
-            # a struct that only serves as the `..base` of another one is judged through the outer one
-            bases = [y[3] for y in structs if y[3] is not None]
-            for x in structs:
-                if x in bases:
-                    continue
+        # a body that is handed a settings value (Clone, a conversion) is evaluated with that value in every reachable state
+        for src in (states_of(R) if sparams else [None]):
+            _sp, vals = R.built(p, src['state'] if src else None)
+            for got in vals:
                 built += 1
                 n += 1
-                v = absx.field_term(x, F)
-                ok = v == on_value or copied(v)
-                ctx.add('W4.verification-disabled-only-on-request', '%s|initial value' % p.replace(R.ST, 'LdapConnSettings'), loc(B.root), ok,
-                        'settings obtained from %s have certificate verification disabled although nobody asked: the field `%s` starts as %s, which is what set_no_tls_verify(true) stores (verification is on for %s)' % (
-                            p.replace(R.ST, 'LdapConnSettings'), F, absx.fmt(v)[:40], absx.fmt(on_value)))
+                if got is None or any(not R.closed(got[F]) for F in R.S):
+                    ctx.fail('W4.settings-constructor-readable', p, loc(B.root), 'a settings value built by %s could not be reduced to a state of the struct' % short)
+                    continue
+                after, why = R.read(role, {F: got[F] for F in R.S})
+                before = R.read(role, src['state'])[0] if src else False
+                ok = after is False or (after is True and before is True) or (after is None and (src is None or before is None))     # (a reader the analysis cannot decide: every initial state is a reachable state, reported - once - by (c))
+                ctx.add('W4.verification-disabled-only-on-request', '%s|initial value' % short, loc(B.root), ok,
+                        'settings obtained from %s%s have certificate verification disabled although nobody asked: %s with them%s' % (
+                            short, ' (applied to %s)' % R.where(src) if src else '', reading_text(role, after), ' (%s)' % why if after is None else ''))
         ctx.add('W4.settings-constructor-readable', p, loc(B.root), built > 0, 'a body that builds the settings struct could not be followed to the value it builds')
     ctx.floor('W4.initial', 'settings values built (constructor paths: new, Default, Clone)', n, 3)
-    # ---- (c) the default connector / configuration
-    flagged = {}          # builder fn -> ('settings', param) | ('bool', param idx): where it reads the request from
-    for fn, danger in DANGER.items():
-        if fn not in f.hir:
-            continue
-        Cb = hirq.Body(f, f.body(fn))
-        ctx.analysed['bodies'].add(fn)
-        sparams = sem.params_of_type(f, Cb, IS_SETTINGS)
-        bparams = sem.params_of_type(f, Cb, lambda t: t == 'bool')
-        n = 0
-        for o in absx.Interp(f, Cb, combinators=True).run():
-            if o.kind == 'div':
-                continue
-            n += 1
-            asked = None
-            for a, t in o.st.pc:
-                if a[0] == 'field' and a[2] == F and a[1][0] == 'param' and a[1][1] in sparams:
-                    asked = R.requested('verify-off', t)
-                    flagged[fn] = ('settings', a[1][1])
-                elif a[0] == 'param' and a[1] in bparams:
-                    # the builder is handed the request as a boolean: (d) requires the caller to pass the field (in this sense)
-                    asked = t
-                    flagged[fn] = ('bool', next(d['idx'] for d in Cb.defs.values() if d['kind'] == 'param' and d['name'] == a[1]))
-            d = calls(o, danger)
-            ok = asked is not None and bool(d) == asked
-            if d and danger == 'danger_accept_invalid_certs':
-                ok = ok and d[0][1][2][1] == ('lit', True)
-            ctx.add('W4.verification-disabled-only-on-request', '%s|disabling requested=%s' % (fn.split('::')[-1], asked), loc(Cb.root), ok,
-                    'certificate verification is %s on a path of %s where set_no_tls_verify(true) %s' % (
-                        'disabled' if d else 'kept', fn.split('::')[-1], 'was not tested for' if asked is None else 'was called' if asked else 'was not called'))
-        ctx.floor('W4', fn.split('::')[-1] + ' paths', n, 2)
+    # ---- (c) the default connector / configuration, in every reachable state
+    by_req = {True: [], False: []}
+    for nd in R.nodes:
+        got, why = R.read(role, nd['state'])
+        by_req[nd['req'][role]].append((nd, got, why))
+    for asked in (True, False):
+        bad = [(nd, got, why) for nd, got, why in by_req[asked] if got is not asked]
+        ctx.add('W4.verification-disabled-only-on-request', '%s|disabling requested=%s' % (bname, asked), loc(f.body(builders[0])['body']), by_req[asked] and not bad,
+                'certificate verification is %s by %s where set_no_tls_verify(true) %s: %s' % (
+                    'not decided to be %s' % ('disabled' if asked else 'kept') if bad and all(got is None for _n, got, _w in bad) else 'kept' if asked else 'disabled', bname, 'was the last such call' if asked else 'was not called (or was followed by set_no_tls_verify(false))',
+                    '; '.join('with %s %s%s' % (R.where(nd), reading_text(role, got), ' (%s)' % why if got is None else '') for nd, got, why in bad[:3]) or 'no reachable settings state with this request'))
+    ctx.floor('W4', bname + ': reachable settings states it was evaluated in', len(R.nodes), 4)
     # ---- (d) the handshake helper
-    if TS in f.hir:
-        T = hirq.Body(f, f.body(TS))
-        ctx.analysed['bodies'].add(TS)
-        sparams = [('param', x) for x in sem.params_of_type(f, T, IS_SETTINGS)]
-        hosts = [('param', x) for x in sem.params_of_type(f, T, lambda t: t == 'str')]
-        streams = [('param', x) for x in sem.params_of_type(f, T, lambda t: t.endswith('::TcpStream'))]
-        ctx.add('W4.handshake-helper-signature', TS, loc(T.root), len(sparams) == 1 and len(hosts) == 1 and len(streams) == 1,
-                'the handshake helper is not (settings, host name: &str, stream: TcpStream): anchor lost')
-        CF = R.field.get('connector')
-        own_flag = lambda x: x[0] == 'field' and x[2] == F and x[1] in sparams
-        given = lambda x: x[0] == 'field' and x[2] == CF and x[1] in sparams
-        outs = absx.Interp(f, T, combinators=True).run(root=T.root['body'] if T.root['k'] == 'Closure' else T.root)
-        n = 0
-        for o in outs:
-            pcs = [(sem.untake(a), t) for a, t in o.st.pc]
-            # the default connector is built from the caller's own verification setting
-            for dc in [e for e in o.st.ev if e[0] == 'call' and e[1] in DANGER]:
-                how = flagged.get(dc[1])
-                if how is None:
-                    okf = False
-                elif how[0] == 'settings':
-                    okf = any(a in sparams for a in dc[2])
-                else:
-                    okf = how[1] < len(dc[2]) and own_flag(dc[2][how[1]]) and R.requested('verify-off', True)
-                    if how[1] < len(dc[2]) and dc[2][how[1]][0] == 'not' and own_flag(dc[2][how[1]][1]):
-                        okf = R.requested('verify-off', False)
-                ctx.add('W4.default-connector-from-own-settings', dc[1].split('::')[-1], loc(dc[3]), okf, 'the default connector is not built from this connection\'s settings (its verification request)')
-            con = calls(o, 'TlsConnector::connect')
-            if not con:
-                continue
-            n += 1
-            custom = absx.pc_variant(pcs, given, 'Some')
-            a = tuple(sem.untake(x) for x in con[0][1][2])
-            src = a[0]
-            uses_given = absx.leaves(src, lambda x: x[0] == 'variant' and x[2] == 'Some' and given(x[1])) != []
-            uses_default = absx.leaves(src, lambda x: x[0] == 'call' and x[1] in DANGER) != []
-            ok = (custom is True and uses_given and not uses_default) or (custom is False and uses_default and not uses_given)
-            ctx.add('W4.connector-choice', 'custom=%s' % custom, loc(T.root), ok, 'a caller-supplied connector/config must be used as given, the default one otherwise')
-            host = a[1]
-            okh = host in hosts or any(absx.leaves(host, lambda x, h=h: x == h) for h in hosts)
-            ctx.add('W4.connect-arguments', 'custom=%s' % custom, loc(T.root), okh and a[-1] in streams, 'the handshake is not run for (hostname, stream) as given')
-        ctx.floor('W4', 'create_tls_stream connect paths', n, 2)
+    T = hirq.Body(f, f.body(TS))
+    sparams = [('param', x) for x in sem.params_of_type(f, T, IS_SETTINGS)]
+    hosts = [('param', x) for x in sem.params_of_type(f, T, lambda t: t == 'str')]
+    streams = [('param', x) for x in sem.params_of_type(f, T, lambda t: t.endswith('::TcpStream'))]
+    ctx.add('W4.handshake-helper-signature', TS, loc(T.root), len(sparams) == 1 and len(hosts) == 1 and len(streams) == 1,
+            'the handshake helper is not (settings, host name: &str, stream: TcpStream): anchor lost')
+    CF = R.field.get('connector')
+    given = lambda x: x[0] == 'field' and x[2] == CF and x[1] in sparams
+    takes_settings = {fn: any('LdapConnSettings' in (x or '') for x in (f.items.get(fn) or {}).get('inputs') or []) for fn in builders}
+    outs = absx.Interp(f, T, combinators=True).run(root=T.root['body'] if T.root['k'] == 'Closure' else T.root)
+    n = 0
+    for o in outs:
+        pcs = [(sem.untake(a), t) for a, t in o.st.pc]
+        # the default connector is built from the caller's own settings (a builder that is handed something else - a flag read from
+        # them - is judged by (c), which follows the handshake helper into it)
+        for dc in [e for e in o.st.ev if e[0] == 'call' and e[1] in DANGER]:
+            okf = any(a in sparams for a in dc[2]) if takes_settings.get(dc[1]) else True
+            ctx.add('W4.default-connector-from-own-settings', dc[1].split('::')[-1], loc(dc[3]), okf, 'the default connector is not built from this connection\'s settings (its verification request)')
+        con = calls(o, 'TlsConnector::connect')
+        if not con:
+            continue
+        n += 1
+        custom = absx.pc_variant(pcs, given, 'Some')
+        a = tuple(sem.untake(x) for x in con[0][1][2])
+        src = a[0]
+        uses_given = absx.leaves(src, lambda x: x[0] == 'variant' and x[2] == 'Some' and given(x[1])) != []
+        uses_default = absx.leaves(src, lambda x: x[0] == 'call' and x[1] in DANGER) != []
+        ok = (custom is True and uses_given and not uses_default) or (custom is False and uses_default and not uses_given)
+        ctx.add('W4.connector-choice', 'custom=%s' % custom, loc(T.root), ok, 'a caller-supplied connector/config must be used as given, the default one otherwise')
+        host = a[1]
+        okh = host in hosts or any(absx.leaves(host, lambda x, h=h: x == h) for h in hosts)
+        ctx.add('W4.connect-arguments', 'custom=%s' % custom, loc(T.root), okh and a[-1] in streams, 'the handshake is not run for (hostname, stream) as given')
+    ctx.floor('W4', 'create_tls_stream connect paths', n, 2)
 
 
 def check_settings_copy(ctx, f, R):
     """W5 - a copy of the connection settings asks for the same protection as the original: if the settings type can be cloned
-    (derived or hand-written), the clone's starttls / no_tls_verify / connector / config are the original's on every path of
+    (derived or hand-written), then for the original in every reachable state the clone reads the same StartTLS request and the
+    same verification setting (each through its reader), and carries the original's connector / config, on every path of
     `Clone::clone`.  (Settings are routinely prepared once and cloned per connection; a clone that forgets `starttls` opens a
     cleartext session although StartTLS was requested.)"""
-    st = 'ldap3::conn::LdapConnSettings'
+    st = R.ST
     p = '<%s as core::clone::Clone>::clone' % st
-    # the TLS-relevant fields, each anchored as the field its public setter writes
-    tls_fields = [R.field[r] for r in ('starttls', 'verify-off', 'connector') if r in R.field]
-    ctx.add('W5.settings-fields', st, '', 'starttls' in R.field and 'verify-off' in R.field, 'the settings struct has no field written by set_starttls / set_no_tls_verify: anchor lost')
+    roles = [r for r in ('starttls', 'verify-off') if r in R.setter]
+    ctx.add('W5.settings-fields', st, '', len(roles) == 2, 'the settings struct has no public set_starttls / set_no_tls_verify: anchor lost')
     if p not in f.hir:
         ctx.ok('W5.settings-copy-keeps-tls-request', 'not Clone', '', 'the settings type cannot be cloned in this configuration')
         return
     B = hirq.Body(f, f.body(p))
     ctx.analysed['bodies'].add(p)
     SELF = ('param', 'self')
+    CF = R.field.get('connector')
     n = 0
-    for o in absx.Interp(f, B, combinators=True, inline=lambda c: c.endswith('core::default::Default>::default')).run():
-        if o.kind not in ('val', 'ret'):
-            continue
-        n += 1
-        v = o.val
-        got = dict(v[2]) if v[0] == 'struct' else {}
-        def same(x, name):
-            # the field itself, possibly through clone()/copy
-            while x and x[0] == 'call' and x[1].rsplit('::', 1)[-1] in ('clone', 'to_owned') and x[2]:
-                x = x[2][0]
-            return x == ('field', SELF, name)
-        wrong = [name for name in tls_fields if not same(got.get(name), name)]
-        ctx.add('W5.settings-copy-keeps-tls-request', ','.join(tls_fields), loc(B.root), v[0] == 'struct' and not wrong,
-                'a clone of the connection settings does not carry over %s (it becomes %s): a connection opened from the copy is not protected as requested' % (
-                    wrong, [absx.fmt(got.get(x, ('unk',)))[:30] for x in wrong]))
+    for src in states_of(R):
+        for o in R.interp(B).run(heap=R.seed(SELF, src['state'])):
+            if o.kind not in ('val', 'ret'):
+                continue
+            n += 1
+            got = R.taken_apart(o.val, o) if o.val[0] == 'struct' else None
+            wrong = []
+            if got is None or any(not R.closed(got[F]) for F in R.S):
+                wrong.append('the clone is not a settings value the analysis can take apart (%s)' % absx.fmt(o.val)[:40])
+            else:
+                s2 = {F: got[F] for F in R.S}
+                for r in roles:
+                    a, b = R.read(r, src['state'])[0], R.read(r, s2)[0]
+                    if a != b or (b is None and r != 'verify-off'):      # (a verification reader that is undecided for the original and for the clone alike is reported by W4 (c))
+                        wrong.append('for the original %s, for the clone %s' % (reading_text(r, a), reading_text(r, b)))
+                if CF is not None and R.copied(got[CF]) != ('field', SELF, CF):
+                    wrong.append('the caller\'s connector becomes %s' % absx.fmt(got[CF])[:30])
+            ctx.add('W5.settings-copy-keeps-tls-request', ','.join(roles + ['connector']), loc(B.root), not wrong,
+                    'a clone of the connection settings %s does not ask for the same protection: %s - a connection opened from the copy is not protected as requested' % (R.where(src), '; '.join(wrong)))
     ctx.floor('W5', 'paths of the settings\' Clone::clone', n, 1)
 
 
 def check_settings_getters(ctx, f, R):
     """W7: the constructors read what was requested through the settings' public getter; a getter that does not return what the
-    setter recorded turns the request off (or on) for every caller.  In every configuration in which the setter exists, each path of
-    `LdapConnSettings::starttls()` returns "set_starttls(true) was called" - the field the setter writes, in the setter's polarity
-    (the always-false fallback exists only where no TLS backend is compiled in - and there there is no setter).  This is what ties
-    `set_starttls(true)` to the scheme decision of the TCP constructor in both TLS back ends (the cfg attributes on the getter pair
-    are not visible in any one configuration)."""
-    st = R.ST
-    SELF = ('param', 'self')
-    n = 0
-    g = '%s::starttls' % st
-    if 'starttls' in R.field and g in f.hir:
-        fld = ('field', SELF, R.field['starttls'])
-        ctx.add('W7.request-recorded', 'set_starttls', '', R.polarity_ok('starttls'), 'set_starttls(v) does not record v in a field of the settings')
-        want = fld if R.stored['starttls'][True] == ('lit', True) else ('not', fld)
-        B = hirq.Body(f, f.body(g))
-        ctx.analysed['bodies'].add(g)
-        for o in absx.Interp(f, B).run():
-            if o.kind not in ('val', 'ret'):
-                continue
-            n += 1
-            ctx.add('W7.getter-returns-the-setting', 'starttls', loc(B.root), o.val == want,
-                    'LdapConnSettings::starttls() returns %s, not what set_starttls recorded (%s): what the caller requested is not what connection set-up sees' % (absx.fmt(o.val)[:40], absx.fmt(want)))
-    if 'starttls' in R.field:
-        ctx.floor('W7', 'paths of the TLS-relevant settings getters', n, 1)
+    setters recorded turns the request off (or on) for every caller.  In every configuration in which the setter exists:
+    set_starttls(v) makes starttls() answer v from every reachable state (W7.request-recorded), and in every reachable state
+    starttls() answers what the last set_starttls call on the way there said - false when there was none
+    (W7.getter-returns-the-setting).  Setter and getter are evaluated on literals, so how the request is kept - a bool field, a bit
+    of a flags byte - is not read.  (The always-false fallback getter exists only where no TLS backend is compiled in - and there
+    there is no setter.)  This is what ties `set_starttls(true)` to the scheme decision of the TCP constructor in both TLS back
+    ends (the cfg attributes on the getter pair are not visible in any one configuration)."""
+    role = 'starttls'
+    if role not in R.setter:
+        return
+    g = R.GETTER[role]
+    ctx.analysed['bodies'].update([g, R.setter[role]])
+    check_request_recorded(ctx, R, role, 'W7.request-recorded', 'set_starttls')
+    bad = []
+    for nd in R.nodes:
+        got, why = R.read(role, nd['state'])
+        if got is not nd['req'][role]:
+            bad.append('with %s %s%s' % (R.where(nd), reading_text(role, got), ' (%s)' % why if got is None else ''))
+    ctx.add('W7.getter-returns-the-setting', 'starttls', loc(f.body(g)['body']) if g in f.hir else '', not bad,
+            'LdapConnSettings::starttls() does not return what set_starttls recorded: %s - what the caller requested is not what connection set-up sees' % '; '.join(bad[:3]))
+    ctx.floor('W7', 'reachable settings states the TLS-relevant getters were evaluated in', len(R.nodes), 4)
 
 
 def check_other_constructors(ctx, f, R):
-    """W8: `set_starttls(true)` is a request for a protected session whatever the URL scheme.  Every constructor that can hand back a
-    connection without TLS must have read the request and found it false on that path - otherwise it hands back a cleartext handle
-    although protection was asked for.  The TCP constructor is decided by W1; this rule covers the remaining ones (the Unix-socket
-    constructor)."""
+    """W8: `set_starttls(true)` is a request for a protected session whatever the URL scheme.  Every constructor other than the TCP
+    one (decided by W1) that takes the settings - the Unix-socket constructor - is evaluated with the settings in every reachable
+    state in which StartTLS reads as requested (the getter followed into): it must not hand back a connection without TLS there."""
+    if 'starttls' not in R.setter:
+        return
+    asked = [n for n in states_of(R) if R.read('starttls', n['state'])[0] is True]
+    ctx.floor('W8', 'reachable settings states with StartTLS requested', len(asked), 1)
     for p in sorted(q for q in f.hir if q.startswith('ldap3::conn::LdapConnAsync::new_') and q != NT and '{' not in q):
         it = f.items.get(p) or {}
         if not any('LdapConnSettings' in (x or '') for x in it.get('inputs') or []):
@@ -444,21 +445,17 @@ def check_other_constructors(ctx, f, R):
         B = hirq.Body(f, f.body(p))
         ctx.analysed['bodies'].add(p)
         setts = [('param', x) for x in sem.params_of_type(f, B, IS_SETTINGS)]
-        outs = absx.Interp(f, B, unroll=1).run(root=B.root['body'] if B.root['k'] == 'Closure' else B.root)
-        oks = [o for o in outs if o.kind in ('val', 'ret') and o.val[0] == 'ctor' and o.val[1] == 'Ok']
-        if not oks:
+        bad, total = 0, 0
+        for n in asked:
+            heap = {}
+            for sp in setts:
+                heap.update(R.seed(sp, n['state']))
+            outs = absx.Interp(f, B, unroll=1, summaries=[R.algebra], inline=lambda c: c in R.GETTER.values()).run(root=B.root['body'] if B.root['k'] == 'Closure' else B.root, heap=heap)
+            oks = [o for o in outs if o.kind in ('val', 'ret') and o.val[0] == 'ctor' and o.val[1] == 'Ok']
+            total += len(oks)
+            bad += len([o for o in oks if not any(e[0] == 'call' and e[1].endswith('::create_tls_stream') for e in o.st.ev)])
+        if not total:
             continue        # e.g. the non-Unix stub, which never returns
-        bad = []
-        for o in oks:
-            asked = None
-            for a, t in o.st.pc:
-                if a[0] == 'call' and a[1].endswith('LdapConnSettings::starttls'):
-                    asked = t
-                elif a[0] == 'field' and a[1] in setts and a[2] == R.field.get('starttls'):
-                    asked = R.requested('starttls', t)
-            tls = any(e[0] == 'call' and e[1].endswith('::create_tls_stream') for e in o.st.ev)
-            if not tls and asked is not False:
-                bad.append(o)
         ctx.add('W8.no-cleartext-handle-when-starttls-requested', p.rsplit('::', 1)[-1], loc(B.root), not bad,
-                '%s returns a connection without TLS on %d of %d paths without having found the StartTLS request absent: with an %s URL, set_starttls(true) is silently ignored and a cleartext handle is handed back' % (
-                    p.rsplit('::', 1)[-1], len(bad), len(oks), 'ldapi' if 'unix' in p else 'other'))
+                '%s returns a connection without TLS on %d of %d paths although StartTLS was requested: with an %s URL, set_starttls(true) is silently ignored and a cleartext handle is handed back' % (
+                    p.rsplit('::', 1)[-1], bad, total, 'ldapi' if 'unix' in p else 'other'))
